@@ -64,6 +64,10 @@ func GetAggregatorContext(ctx sdk.Context, k Keeper) *aggregator.AggregatorConte
 
 func recacheAggregatorContext(ctx sdk.Context, agc *aggregator.AggregatorContext, k Keeper, c *cache.Cache) bool {
 	logger := k.Logger(ctx)
+	// the replay window is MaxNonce blocks: take MaxNonce from the stored params, the package-level copy still holds
+	// the compile-time default in a freshly started process
+	storedParams := k.GetParams(ctx)
+	setCommonParams(&storedParams)
 	from := ctx.BlockHeight() - int64(common.MaxNonce) + 1
 	to := ctx.BlockHeight()
 
